@@ -25,7 +25,9 @@ type NamedOut struct {
 // CleanCase is a project tree plus a spokfile declaring outputs.
 type CleanCase struct {
 	// ProjDir names the directory holding the spokfile ("" = proj)
-	ProjDir   string     `json:"proj_dir,omitempty"`
+	ProjDir string `json:"proj_dir,omitempty"`
+	// Invoke: how spok is pointed at the project (sandbox.Box.Invoke)
+	Invoke    string     `json:"invoke,omitempty"`
 	Tree      []string   `json:"tree"` // relative to the project; trailing '/' = directory
 	Literal   []string   `json:"literal"`
 	Named     []NamedOut `json:"named"`
@@ -53,6 +55,7 @@ var cleanGlobPool = []string{"build/*.o", "**/*.tmp", "none/*.zzz", "dist/**/*.j
 func genClean(t *rapid.T) CleanCase {
 	c := genCleanBody(t)
 	c.ProjDir = genProjDir(t)
+	c.Invoke = genInvoke(t)
 	return c
 }
 
@@ -135,7 +138,7 @@ func (c CleanCase) source() string {
 }
 
 func execClean(s *ev.Shard, b *sandbox.Box, c CleanCase) *rp.Fail {
-	if err := b.ResetAs(c.ProjDir); err != nil {
+	if err := b.ResetFor(c.ProjDir, c.Invoke); err != nil {
 		return &rp.Fail{Sig: "harness", Msg: err.Error()}
 	}
 	src := c.source()
@@ -198,6 +201,17 @@ func execClean(s *ev.Shard, b *sandbox.Box, c CleanCase) *rp.Fail {
 		D = append(D, desig{fmt.Sprintf("literal output %q", l), toSB(l)})
 	}
 	for _, n := range c.Named {
+		if strings.HasPrefix(n.RHS, "join(") {
+			// join() gives an absolute path from the directory spok is started in; the output
+			// designates whatever path the variable evaluates to
+			abs := cleanPath(b.EffectiveCwd(b.Proj), []string{n.Value})
+			r, err := filepath.Rel(b.SB, abs)
+			if err != nil {
+				r = abs
+			}
+			D = append(D, desig{fmt.Sprintf("output %s := %s", n.Name, n.RHS), filepath.ToSlash(r)})
+			continue
+		}
 		D = append(D, desig{fmt.Sprintf("output %s := %s", n.Name, n.RHS), toSB(n.Value)})
 	}
 	// files matching an output glob are designated; a directory that matches the pattern may be
